@@ -23,7 +23,9 @@ WEIGHTS = [("hostile", 4), ("fastlat", 3), ("plain", 2), ("multi", 1), ("event",
 def plan(tier, seed):
     cases = _sim.plan_profiles(tier, seed, WEIGHTS, 7000, 80000)
     n = 1500 if tier == "quick" else 40000
-    return cases + [{"mode": "live_walk", "seed": seed, "idx": i, "cfg": {"n": 1 + i % 3, "async": i % 4 == 3}, "len": 9 + i % 6} for i in range(n)]
+    cases += [{"mode": "live_walk", "seed": seed, "idx": i, "cfg": {"n": 1 + i % 3, "async": i % 4 == 3}, "len": 9 + i % 6} for i in range(n)]
+    # paper trading: simulated execution on the pool of a live Flumine, completion reported by the poller
+    return cases + [{"mode": "paper_walk", "seed": seed, "idx": i, "len": 40 + i % 50} for i in range(300 if tier == "quick" else 6000)]
 
 
 def build(desc):
@@ -47,6 +49,25 @@ def build(desc):
 
 
 def run(desc):
+    if desc.get("mode") == "paper_walk":
+        from .. import paperwalk
+
+        rng = simgen.mk_rng(desc["seed"], desc["idx"], 110)
+        kw = {"max_trade_count": rng.choice((2, 3, 1e6)), "max_live_trade_count": rng.choice((1, 2, 3, 1e6)), "multi_order_trades": rng.random() < 0.6}
+
+        def observe(r, m, phase):
+            # judged at quiescent points only (every call answered, one poll processed)
+            r.tr.framework = r.w.fw
+            observers.trade_accounting(r.tr, m, phase)
+
+        r = paperwalk.walk(desc, observe, n_strategies=rng.choice((1, 2)), strategy_kw=kw)
+        out = O.Out(PROPERTY)
+        out.violations += [dict(v, tags=dict(v["tags"], exec="Paper")) for v in r.tr.online if v["property"] == PROPERTY]
+        for k, v in r.tr.counters.items():
+            if k.startswith("rule_"):
+                out.c(k, v)
+        out.c("paper_walks")
+        return out.result()
     if desc.get("mode") == "live_walk":
         from . import c11
 
